@@ -157,7 +157,10 @@ def run_unit(unit, tier):
         # data-path arguments that differ only in the type of an equal-valued part (1 / 1.0 / True), all parsed in one
         # process, in both orders
         from mc.props.c17 import PARGS_CONF
-        cs = path_arg_cases(PARGS_CONF if unit[1] == 0 else PARGS_CONF[::-1])
+        # (+ paths whose parts are spelled like type names / callables / datum kinds)
+        named = [T.path((("prim", "cfg"), ("prim", "list"))), T.path((("prim", "int"),), "dtype"), T.path((("prim", "str"), ("prim", "dict")), "length"),
+                 T.path((("prim", "value"), ("prim", "path"))), T.path((("prim", "map"), ("prim", "bool")), "dtype")]
+        cs = path_arg_cases((PARGS_CONF if unit[1] == 0 else PARGS_CONF[::-1]) + named)
         for i, (t, spec) in enumerate(cs):
             check_case(res, t, spec, key=("PC", unit[1], i))
     elif unit[0] == "H":
